@@ -40,6 +40,12 @@ var c01Pins = []pin{
 	{"umpToCaseHeader", "tpl", `"case " ⟨unionCSName(p0, p1.CaseId)⟩ ": " ?(((p1.VarName ne "_") && (p1.VarName ne ""))){⟨p1.VarName⟩ " := " ⟨p2⟩ ".Value" " "}`, "the case label is the struct U_C of the named case; the bound variable is its Value"},
 	{"umrToCase", "tpl", `⟨umpToCaseHeader(p1, p3.UnionPattern, p2)⟩ ⟨p0(p3.Body)⟩ " "`, "case header then the arm body"},
 	{"drToCase", "tpl", `"default: " ⟨p0(p1)⟩ " "`, "default arm"},
+	// string match: the pattern is the literal's token text (already in Go's escaped form, C11), pasted between quotes
+	{"smrToCase", "tpl", `"case \"" ⟨p1.LiteralPattern⟩ "\":" " " ⟨p0(p1.Body)⟩ " "`, "a string pattern is the case label \"<token text>\" — the text is not escaped a second time"},
+	{"svrToCase", "tpl", `"default: " ⟨p0(p1.Body)⟩ " "`, "the variable rule is the default arm"},
+	{"smrToGoReturn", "tpl", `!⟨$1 := \x0. seq[seq[buf.Write($0, strings.Concat("", slice.Map(smrToCase(p1, _), x0)))]]⟩ match(p3){StringMatchRules_SCaseWV: "switch " ⟨payload(StringMatchRules_SCaseWV).VarRule.VarName⟩ " :=" "(" ⟨p0(p2)⟩ "); " ⟨payload(StringMatchRules_SCaseWV).VarRule.VarName⟩ "{ " !⟨$1(payload(StringMatchRules_SCaseWV).Literals)⟩ ⟨svrToCase(p1, payload(StringMatchRules_SCaseWV).VarRule)⟩ "}"; StringMatchRules_SCaseWD: "switch (" ⟨p0(p2)⟩ "){ " !⟨$1(payload(StringMatchRules_SCaseWD).Literals)⟩ ⟨drToCase(p1, payload(StringMatchRules_SCaseWD).Default)⟩ "}"}`,
+		"a string match is a Go switch on the target (evaluated once; bound to the rule's variable when there is one), literal cases in source order, then the variable or default arm"},
+	{"meToGoReturn", "tpl", `match(p2.Rules){MatchRules_RUnions: ⟨umrToGoReturn(p0, p1, p2.Target, payload(MatchRules_RUnions))⟩; MatchRules_RStrings: ⟨smrToGoReturn(p0, p1, p2.Target, payload(MatchRules_RStrings))⟩}`, "union rules and string rules go to their own emitters"},
 	{"unionCSName", "nf", `((p0 + "_") + p1)`, "one naming function for constructors and case labels"},
 	{"csConstructorName", "nf", `("New_" + unionCSName(p0, p1.Name))`, "constructors build the same struct the labels name"},
 	{"umrToGoReturn", "tpl", `!⟨$0 := umrHasCaseVar(p3)⟩ !⟨$1 := if($0, uniqueTmpVarName(), "")⟩ !⟨$3 := \x0. seq[seq[buf.Write($2, strings.Concat("", slice.Map(umrToCase(p1, utName(CastNow(ExprToType(p2)).Value), $1, _), x0)))]]⟩ "switch " ?($0){⟨$1⟩ " := "} "(" ⟨p0(p2)⟩ ").(type){ " match(p3){UnionMatchRules_UCaseOnly: !⟨$3(payload(UnionMatchRules_UCaseOnly))⟩ "default: panic(\"Union pattern fail. Never reached here.\") "; UnionMatchRules_UCaseWD: !⟨$3(payload(UnionMatchRules_UCaseWD).Unions)⟩ ⟨drToCase(p1, payload(UnionMatchRules_UCaseWD).Default)⟩} "}"`,
